@@ -6,7 +6,9 @@ empty update, `updateMeta*`), plus the model of the guard of `Executor._run_hash
 (`P/Skip.lean`, `hashJobApplies`) against the real coroutine on constructed workflows.
 
 Oracle (on the real director code through `simdirector`): the histories of the C01 generator with
-half of the phases editing source files only.
+half of the phases editing source files only, and trees of nested plans (steps with environment
+overrides, a named glob with a constrained wildcard next to a file that matches only the
+unconstrained pattern) in which every phase touches exactly one source or plan file.
  (1) After every successful build the build is repeated with nothing changed, as a restart with
      another job count and schedule or as a watch-mode rebuild without edits: no command may
      run, the canonical graph text (digests included) and the bytes, mtime and inode of every
@@ -173,7 +175,7 @@ async def search(ctx):
 
     t0 = time.time()
     broken_runs = 0
-    n = ctx.budget(160, 3000)
+    n = ctx.budget(130, 2400)
     st = ctx.stats
     for i in range(n):
         found, summary, hist = await asyncio.to_thread(run_case, ctx, i)
@@ -207,6 +209,31 @@ async def search(ctx):
                        "props.c04.evaluate",
             }))
         if stop:
+            break
+    for i in range(ctx.budget(60, 1200)):
+        r = ctx.rng("tree", i)
+        initial, events, source_only = buildkit.gen_tree_source_history(r)
+        seed = r.randrange(1 << 30)
+        noop_seeds = [r.randrange(1 << 30) for _ in range(len(events) + 1)]
+        found, summary = await asyncio.to_thread(evaluate, initial, events, source_only, seed, noop_seeds)
+        st.case(("tree", i), nontrivial=summary["cone_executed"] > 0)
+        st.programs += 1
+        st.count("plan-tree-histories")
+        for key in ("noop_checks", "cone_checks", "cone_executed", "cone_nonempty", "nbuild", "commands"):
+            st.count(key.replace("_", "-"), summary[key])
+        for sig, what, extra in found:
+            st.count("finding:" + sig)
+            ctx.finding(Finding(PID, sig, what, {
+                "case": {"verif_seed": ctx.seed, "salt": "tree", "index": i},
+                "events": buildkit.describe_events(events), **extra,
+                "explicit": {"initial": buildkit.to_json({"scripts": initial.scripts, "files": initial.files,
+                                                          "env": initial.env}),
+                             "events": buildkit.to_json(events), "source_only": source_only, "seed": seed,
+                             "noop_seeds": noop_seeds},
+                "how": "props/c04.py: buildkit.gen_tree_source_history (nested plans, steps with env overrides, a "
+                       "named glob with a constrained wildcard; every phase touches one source or one plan file), "
+                       "evaluated by props.c04.evaluate"}))
+        if any(sig.startswith("director-") for sig, _, _ in found):
             break
     if not st.rule:
         st.rule = ("a case is one history of the C01 generator (half of the phases edit source files only); every "
